@@ -340,7 +340,7 @@ func (o *ovsdbClient) connect(ctx context.Context, reconnect bool) error {
 	go o.handleDisconnectNotification()
 	if o.options.inactivityTimeout > 0 {
 		o.handlerShutdown.Add(1)
-		go o.handleInactivityProbes()
+		go o.handleInactivityProbes(o.rpcClient, o.stopCh, o.trafficSeen)
 	}
 	for _, db := range o.databases {
 		o.handlerShutdown.Add(1)
@@ -1334,21 +1334,11 @@ func (o *ovsdbClient) handleClientErrors(stopCh <-chan struct{}) {
 	}
 }
 
-func (o *ovsdbClient) sendEcho(args []interface{}, reply *[]interface{}) *rpc2.Call {
-	o.rpcMutex.RLock()
-	defer o.rpcMutex.RUnlock()
-	if o.rpcClient == nil {
-		return nil
-	}
-	return o.rpcClient.Go("echo", args, reply, make(chan *rpc2.Call, 1))
-}
-
-func (o *ovsdbClient) handleInactivityProbes() {
+func (o *ovsdbClient) handleInactivityProbes(rpcClient *rpc2.Client, stopCh chan struct{}, trafficSeen chan struct{}) {
 	defer o.handlerShutdown.Done()
-	echoReplied := make(chan string)
+	echoReplied := make(chan string, 1)
 	var lastEcho string
-	stopCh := o.stopCh
-	trafficSeen := o.trafficSeen
+	dropConnection := func() { rpcClient.Close() }
 	for {
 		select {
 		case <-stopCh:
@@ -1358,14 +1348,14 @@ func (o *ovsdbClient) handleInactivityProbes() {
 		case ts := <-echoReplied:
 			// Got a response from the server, check it against lastEcho; if same clear lastEcho; if not same Disconnect()
 			if ts != lastEcho {
-				o.dropConnection()
+				dropConnection()
 				return
 			}
 			lastEcho = ""
 		case <-time.After(o.options.inactivityTimeout):
 			// If there's a lastEcho already, then we didn't get a server reply, disconnect
 			if lastEcho != "" {
-				o.dropConnection()
+				dropConnection()
 				return
 			}
 			// Otherwise send an echo
@@ -1373,13 +1363,10 @@ func (o *ovsdbClient) handleInactivityProbes() {
 			args := []interface{}{"libovsdb echo", thisEcho}
 			var reply []interface{}
 			// Can't use o.Echo() because it blocks; we need the Call object direct from o.rpcClient.Go()
-			call := o.sendEcho(args, &reply)
-			if call == nil {
-				o.dropConnection()
-				return
-			}
 			lastEcho = thisEcho
 			go func() {
+				// the write may block on a peer that stopped reading
+				call := rpcClient.Go("echo", args, &reply, make(chan *rpc2.Call, 1))
 				// Wait for the echo reply
 				select {
 				case <-stopCh:
@@ -1388,11 +1375,11 @@ func (o *ovsdbClient) handleInactivityProbes() {
 					if call.Error != nil {
 						// RPC timeout; disconnect
 						o.logger.V(3).Error(call.Error, "server echo reply error")
-						o.dropConnection()
+						dropConnection()
 					} else if !reflect.DeepEqual(args, reply) {
 						o.logger.V(3).Info("warning: incorrect server echo reply",
 							"expected", args, "reply", reply)
-						o.dropConnection()
+						dropConnection()
 					} else {
 						// Otherwise stuff thisEcho into the echoReplied channel
 						echoReplied <- thisEcho
@@ -1497,19 +1484,6 @@ func (o *ovsdbClient) _disconnect() {
 		return
 	}
 	o.rpcClient.Close()
-}
-
-// dropConnection closes the connection on behalf of the inactivity probe. It
-// does not wait for the calls in flight, as Disconnect does: they hold the
-// read lock until the silent peer answers, and closing the connection is what
-// makes them return
-func (o *ovsdbClient) dropConnection() {
-	o.rpcMutex.RLock()
-	rpcClient := o.rpcClient
-	o.rpcMutex.RUnlock()
-	if rpcClient != nil {
-		rpcClient.Close()
-	}
 }
 
 // Disconnect will close the connection to the OVSDB server
